@@ -659,7 +659,8 @@ def order_variant(draw, desc):
 
 NEAR_MISS_EDITS = ('list_tuple', 'arity_plus', 'arity_minus', 'key_rename', 'key_add', 'key_remove',
                    'nt_swap', 'meta_change', 'node_to_leaf', 'none_leaf', 'kind_swap', 'dict_to_cm',
-                   'tuple_nt', 'tuple_ss', 'tuple_sub')
+                   'tuple_nt', 'tuple_ss', 'tuple_sub',
+                   'map_to_seq', 'seq_to_map')       # same arity and children, mapping kind <-> sequence kind
 
 
 def near_miss(draw, desc, edits=None, allow_root=False):
@@ -735,6 +736,13 @@ def near_miss(draw, desc, edits=None, allow_root=False):
             if e == 'kind_swap' and t in ('list', 'tuple') :
                 c[i] = ['deque', n[1], 'none', []]
                 return root[0], e
+            if e == 'map_to_seq' and t in ('dict', 'od', 'dd'):
+                items = n[2] if t == 'dd' else n[1]
+                c[i] = [draw(st.sampled_from(['list', 'tuple'])), [v for _k, v in items]]
+                return root[0], e
+            if e == 'seq_to_map' and t in ('list', 'tuple'):
+                c[i] = [draw(st.sampled_from(['dict', 'od'])), [[['i', k], v] for k, v in enumerate(n[1])], []]
+                return root[0], e
             if e == 'dict_to_cm' and t == 'dict' and all(k[0] == 's' and k[1] in 'xyzw' for k, _ in n[1]):
                 c[i] = ['cm', [[k[1], v] for k, v in n[1]]]
                 return root[0], e
@@ -790,6 +798,12 @@ def _seed_node(draw, e, leaf):
         return ['dd', draw(_FACT), items, []] if k == 'dd' else [k, items, []]
     if e == 'dict_to_cm':
         return ['dict', [[['s', 'x'], x], [['s', 'y'], y]], []]
+    if e == 'map_to_seq':
+        k = draw(st.sampled_from(['dict', 'od', 'dd']))
+        items = [[['s', 'a'], x], [['s', 'b'], y]]
+        return ['dd', draw(_FACT), items, []] if k == 'dd' else [k, items, []]
+    if e == 'seq_to_map':
+        return [draw(st.sampled_from(['list', 'tuple'])), [x, y]]
     if e == 'nt_swap':
         return ['nt', draw(st.sampled_from(['NT2', 'NTSub'])), [x, y]]
     if e == 'meta_change':
